@@ -349,7 +349,12 @@ def r_killuse(db, rep):
             rep.viol(key, "%s:%s" % (of.file, oline),
                      "%s frees %s (%s) and does not replace it: calling %s again, or any operation that uses it, touches freed memory" % (
                          op.qn, fmt_region(r), " -> ".join(chain), op.name), of.qn)
-    # creation paths that leave a dangling field: `delete obj->f` in a loader without reassignment
+
+
+@rule("R-DANGLING", 35, "no loader deletes a field of the object it returns without replacing it when a method of that object uses the field")
+def r_dangling(db, rep):
+    E = get_effects(db)
+    memo = {}
     pairs = [(w, r) for w, r in rules_serial.find_pairs(db) if not rules_serial.is_dispatcher(db, r)]
     cone = rules_serial.mirror_cone(db, pairs)
     done = set()
@@ -360,6 +365,8 @@ def r_killuse(db, rep):
         done.add(ld.id)
         rec = ld.rec
         rep.visit(ld)
+        rep.inst(ld.loc, "%s: deletes of fields of the created object examined" % ld.qn)
+        rep.ob()
         fam = [rec] + db.all_bases(rec)
         for n in ld.nodes():
             if n["k"] != "CXXDeleteExpr":
@@ -370,7 +377,6 @@ def r_killuse(db, rep):
             fld = p[-1]
             if db.field(rec, fld) is None:
                 continue
-            rep.inst(ld.nloc(n), "%s deletes field %s of the object it creates" % (ld.qn, fld))
             rep.ob()
             cfg = ld.cfg
             pos = cfg.position(n)
